@@ -137,7 +137,9 @@ Definition interpolate_defaults (p : param) (announces : list str) (require_defa
 Definition is_str_val (v : pyval) : bool := match v with VStr _ => true | _ => false end.
 Definition fld_is_none {A} (f : fld A) : bool := match f with Has _ => false | _ => true end.
 
-(* docstring_parsers.py:_infer_default on a dict whose default is a scalar *)
+(* docstring_parsers.py:_infer_default on a dict whose default is a scalar (the ast-valued branches,
+   which now come before the unquoting branch, do not apply to scalars; needs_quoting is still
+   evaluated before the isinstance test of its  or ) *)
 Definition infer_default (p : param) (infer_type : bool) : outcome param :=
   match p_default p with
   | None => Err KeyError
@@ -271,15 +273,20 @@ Fixpoint fold_outcome {A B} (f : A -> B -> outcome A) (l : list B) (a : A) : out
   | x :: r => do a' <- f a x; fold_outcome f r a'
   end.
 
-(* the loop, then the final flush ( if param:  is always true: a non-empty list or tuple) *)
+(* the loop, then the final flush  if param and param[0] is not None:  (the pair itself is always
+   truthy: a non-empty list or tuple; only a pair that has a name is flushed) *)
 Definition parse_phase_rest (scanned : list (bool * str))
            (infer_type word_wrap emit_default_prop emit_default_doc : bool) : outcome rstate :=
   do st <- fold_outcome (parse_rest_line infer_type word_wrap emit_default_prop emit_default_doc)
                         scanned init_rstate;
-  do p <- interpolate_defaults (snd (rs_cur st)) default_announces false emit_default_doc;
-  do np <- set_name_and_type (fst (rs_cur st)) p infer_type word_wrap;
-  do p' <- maybe_remove (snd np) emit_default_prop emit_default_doc;
-  Ok (mkRS (rs_doc st) (od_set (fst np) p' (rs_params st)) (rs_returns st) (rs_cur st)).
+  match fst (rs_cur st) with
+  | None => Ok st
+  | Some _ =>
+    do p <- interpolate_defaults (snd (rs_cur st)) default_announces false emit_default_doc;
+    do np <- set_name_and_type (fst (rs_cur st)) p infer_type word_wrap;
+    do p' <- maybe_remove (snd np) emit_default_prop emit_default_doc;
+    Ok (mkRS (rs_doc st) (od_set (fst np) p' (rs_params st)) (rs_returns st) (rs_cur st))
+  end.
 
 Fixpoint map_outcome {A B} (f : A -> outcome B) (l : list A) : outcome (list B) :=
   match l with
